@@ -13,6 +13,7 @@ mod c03;
 mod c14;
 mod ser;
 mod c05;
+mod c10;
 mod c11;
 mod c15;
 mod c18;
@@ -65,6 +66,7 @@ fn main() {
             "C03" => c03::replay(&rep, case),
             "C14" => c14::replay(&rep, case),
             "C05" => c05::replay(&rep, case),
+            "C10" => c10::replay(&rep, case),
             "C11" => c11::replay(&rep, case),
             "C15" => c15::replay(&rep, case),
             "C18" => c18::replay(&rep, case),
@@ -83,6 +85,7 @@ fn main() {
         "C03" => c03::run(&rep),
         "C14" => c14::run(&rep),
         "C05" => c05::run(&rep),
+        "C10" => c10::run(&rep),
         "C11" => c11::run(&rep),
         "C15" => c15::run(&rep),
         "C18" => c18::run(&rep),
